@@ -1,2 +1,3 @@
 pub mod lossless;
 pub mod fmt;
+pub mod eval;
